@@ -118,7 +118,7 @@ def run(chk, tier):
     for tu in tus:
         results, unattributed = res[tu.name]
         wit.judge(chk, "W-TYPES", tu, results, unattributed)
-        chk.instance("W-TYPES:" + tu.name, len(tu.obl))
+        chk.instance("W-TYPES:" + tu.name, len(tu.obl) or 1)
         total += len(tu.obl)
     if total < 500:
         chk.analysis_broken("W-TYPES: only %d obligations generated" % total)
